@@ -135,12 +135,17 @@ func c13Gen(t *tape.Tape, ownProp func(string) bool) (prelude, recv string, step
 		s1, s2, s3 := next(), next(), next()
 		// the methods' results depend on every argument they receive, so a dropped or
 		// reordered argument shows in the value
-		prelude = fmt.Sprintf("o := {ma: m{|a| S(%d); .bear({la: a})}, mb: m{|a, k: 0, j: 5, _p: 2| S(%d); .bear({lb: [a, k, j, _p, \\_]})}, mi: m{S(%d); 7}, v: 3}\n", s1, s2, s3)
+		prelude = fmt.Sprintf("o := {_pm: m{|a| S(%d); .bear({lp: a})}, ma: m{|a| S(%d); .bear({la: a})}, mb: m{|a, k: 0, j: 5, _p: 2| S(%d); .bear({lb: [a, k, j, _p, \\_]})}, mi: m{S(%d); 7}, v: 3}\n", s1, s1, s2, s3)
 		recv = "o"
 		for i := 0; i < k; i++ {
 			last := i == k-1
 			switch t.Pick(3, 3, 2, 1, 1, 1) {
 			case 0:
+				if t.Chance(1, 4) {
+					// a method with a private name is a step like any other
+					steps = append(steps, c13Step{"method", fmt.Sprintf("._pm(%d)", t.Intn(9)), s1})
+					break
+				}
 				steps = append(steps, c13Step{"method", fmt.Sprintf(".ma(%d)", t.Intn(9)), s1})
 			case 1:
 				switch t.Intn(5) {
@@ -182,7 +187,7 @@ func c13Gen(t *tape.Tape, ownProp func(string) bool) (prelude, recv string, step
 		// chain is the reference, so whatever they do (incl. failing) must commute
 		recv = []string{"\"a,b;c\"", "\"Hello World\"", "\"abcdefgh\""}[t.Intn(3)]
 		builtins := []string{".uc", ".lc", ".len", ".split(sep: \",\")", ".split(sep: \";\")", ".split(sep: 1)", ".truncate(5, end: \"~\")", ".truncate(3)",
-			".rev", ".S", ".repr", ".sum", ".join(\"-\")", ".first", ".last", ".+(\"z\")", ".*(2)", ".at(1)", ".keys", ".capital", ".I", ".sub(\"b\", \"B\")", ".has?(\"a\")", ".sort", ".max", ".S(base: 2)"}
+			".rev", ".S", ".repr", ".sum", ".join(\"-\")", ".first", ".last", ".+(\"z\")", ".*(2)", ".at(1)", ".keys", ".capital", ".I", ".sub(\"b\", \"B\")", ".has?(\"a\")", ".sort", ".max", ".S(base: 2)", "._incBy(1)", "._incBy(2)"}
 		for i := 0; i < k; i++ {
 			if t.Chance(1, 4) {
 				sl := next()
